@@ -83,7 +83,11 @@ func MatchMain(eng *Engine) (bind inputrc.Bind, command func(), prefix bool) {
 
 	// Non-incremental search mode should always insert the keys
 	// if they did not exactly match one of the valid commands.
-	if eng.nonIncSearch && (command == nil || prefix) {
+	// (The beginning of a function key sequence is not text, though: when
+	// such a sequence is split across two reads, wait for the rest of it.)
+	control := len(read) > 0 && (read[0] < 0x20 || read[0] == 0x7f)
+
+	if eng.nonIncSearch && (command == nil || prefix) && !(prefix && control) {
 		bind = inputrc.Bind{Action: "self-insert"}
 		eng.active = bind
 		command = eng.resolve(bind)
